@@ -82,7 +82,7 @@ CONSTANTS
   NSub = {nsub}
   MaxOps = {maxops}
   MaxHeap = 6
-  MaxNss = 2
+  MaxNss = {maxnss}
   DumpEdges = {dump}
 VIEW View
 ACTION_CONSTRAINT Dump
@@ -102,7 +102,7 @@ CHECK_DEADLOCK FALSE
 
 
 def run_mc(rep: Report, sel: str, maxops: int, nparts: int, dump: bool, coverage,
-           timeout: float, label: str, nsub: int = 1):
+           timeout: float, label: str, nsub: int = 1, maxnss: int = 2):
     """Run MC_RenderArgs on `nparts` partitions of the tree set side by side (an edge dump
     needs one worker per JVM).  coverage: True = every partition runs with -coverage;
     "sample" = the partitions run without it and one extra JVM runs -coverage on TreesCover
@@ -114,13 +114,13 @@ def run_mc(rep: Report, sel: str, maxops: int, nparts: int, dump: bool, coverage
     for p in range(nparts * nsub):
         f = d / f"MC_{sel}_{p}.cfg"
         f.write_text(CFG.format(sel=sel, part=p // nsub, nparts=nparts, sub=p % nsub, nsub=nsub,
-                                maxops=maxops, dump="TRUE" if dump else "FALSE"))
+                                maxops=maxops, maxnss=maxnss, dump="TRUE" if dump else "FALSE"))
         jobs.append(dict(spec="MC_RenderArgs", cfg=str(f), workers=1 if dump else 2, jvm=jvm,
                          timeout=timeout, coverage=coverage is True, deadlock=False))
     if coverage == "sample":
         f = d / "MC_cover.cfg"
         f.write_text(CFG.format(sel="cover", part=0, nparts=1, sub=0, nsub=1, maxops=maxops,
-                                dump="FALSE"))
+                                maxnss=maxnss, dump="FALSE"))
         jobs.append(dict(spec="MC_RenderArgs", cfg=str(f), workers=1, jvm=jvm, timeout=timeout,
                          coverage=True, deadlock=False))
     try:
@@ -956,7 +956,7 @@ def main(rep: Report, replay: dict | None) -> None:
             sel, _, ops = sc["label"].partition("/")
             maxops = int(ops[:1] or 3)
             res = run_mc(rep, sel, maxops, 24 if sel == "thorough" else NQUICK, True, False, 900,
-                         sc["label"], nsub=4 if maxops > 3 else 1)
+                         sc["label"], nsub=4 if maxops > 3 else 1, maxnss=1 if maxops > 3 else 2)
             replay_edges(rep, res, sc["label"], only_tree=sc["tree"], only_first=sc["first"])
         elif sc["kind"] == "data":
             case = sc["case"]
@@ -996,7 +996,7 @@ def main(rep: Report, replay: dict | None) -> None:
         t0 = _lap(rep, "replay thorough/3ops", t0)
         del res
         if len(rep.violations) < MAX_VIOLATIONS:
-            res4 = run_mc(rep, "quick", 4, NQUICK, True, False, 840, "quick/4ops", nsub=4)
+            res4 = run_mc(rep, "quick", 4, NQUICK, True, False, 840, "quick/4ops", nsub=4, maxnss=1)
             t0 = _lap(rep, "tlc quick/4ops", t0)
             replay_edges(rep, res4, "quick/4ops")
             t0 = _lap(rep, "replay quick/4ops", t0)
@@ -1005,7 +1005,7 @@ def main(rep: Report, replay: dict | None) -> None:
         rep.extra["exhaustive_space"] = (
             "histories of 3 operations on every tree shape with <= 4 classes (depth <= 3, "
             "branching <= 2) x every non-empty owner set and 5-class shapes x 3 owner sets; "
-            "histories of 4 operations on the 9 quick trees")
+            "histories of 4 operations (one namespace per call) on the 6 quick trees")
 
     # ---- render data (mutable namespaces): complete state graph, replayed ---------------
     replay_data(rep, data_future.result(), f"data/{rep.tier}")
